@@ -337,6 +337,8 @@ def check_C12(ctx, rep):
     feedback.check_k4_roles(ctx, rep, roles)
     for f in fs:
         feedback.check_k8(ctx, rep, f, roles)
+    # the checkers judge what the parsers built from the submitted text
+    build.check_builder_fields(ctx, rep)
     feedback.check_compare_languages(ctx, rep, ctx.prog.func('language_generator.compare_languages'))
     feedback.check_k7(ctx, rep, ctx.prog.func('notebook.check_max_states'))
     if closed.check_checker_targets(ctx, rep, ctx.prog.func('notebook_nfa2dfa.check_nfa_to_dfa_answer')) < 1:
@@ -369,6 +371,9 @@ def check_C13(ctx, rep):
     iorules.check_regexp_io(ctx, rep)
     iorules.check_paren_independence(ctx, rep)
     iorules.check_cfg_io(ctx, rep)
+    build.check_parse_line(ctx, rep)
+    build.check_builder_fields(ctx, rep)
+    iorules.check_line_delimiters(ctx, rep)
     misc.check_minimiser_siblings(ctx, rep, F(ctx, 'dfa_algorithms.dfa_minimize', 'dfa_algorithms.dfa_quotient', 'dfa_algorithms.dfa_hopfcroft'))
     rep.extra['templates'] = len(ctx.prog.templates)
     rep.extra['template_tags'] = sum(len(t.tags) for t in ctx.prog.templates.values())
@@ -388,6 +393,9 @@ def check_C16(ctx, rep):
     if iorules.check_generated(ctx, rep) < 3:
         raise AnalysisError('fewer than 3 grammar / generated-parser pairs found')
     build.check_declared_vs_empty(ctx, rep)
+    build.check_parse_line(ctx, rep)
+    build.check_builder_fields(ctx, rep)
+    iorules.check_line_delimiters(ctx, rep)
     _effect_on(ctx, rep, ['dfa_algorithms.print_dfa', 'nfa_algorithms.print_nfa', 'pda_algorithms.print_pda', 'tm_algorithms.print_tm',
                           'cfg_algorithms.cfg_print_simple', 'regexp.print_regexp', 'regexp.print_regexp_simple'], shared=False)
 
@@ -400,6 +408,8 @@ def check_C17(ctx, rep):
     if build.check_builders(ctx, rep) < 15:
         raise AnalysisError('fewer than 15 builder obligations found')
     build.check_check_methods(ctx, rep)
+    if build.check_builder_fields(ctx, rep) < 7:
+        raise AnalysisError('fewer than 7 builder state-set arguments found')
     if build.check_parse_line(ctx, rep) < 4:
         raise AnalysisError('fewer than 4 keyword stores found in parse_line')
     if build.check_invariants(ctx, rep) < 30:
@@ -409,6 +419,7 @@ def check_C17(ctx, rep):
     iorules.check_label_layout(ctx, rep, 'pda')
     iorules.check_label_layout(ctx, rep, 'tm')
     iorules.check_keywords(ctx, rep)
+    iorules.check_line_delimiters(ctx, rep)
 
 
 def check_C14(ctx, rep):
